@@ -24,7 +24,7 @@ from . import ompl_build
 VERIF = os.path.dirname(os.path.dirname(os.path.abspath(__file__)))
 REPO = ompl_build.REPO
 LEAN = os.path.join(VERIF, "lean")
-CACHE = os.path.join(VERIF, ".cache")
+CACHE = ompl_build.CACHE
 BIN = os.path.join(CACHE, "bin")
 HARNESS = os.path.join(VERIF, "harness")
 
